@@ -34,7 +34,8 @@ var allSources = []lint.LintSource{lint.RFC3279, lint.RFC5280, lint.RFC5480, lin
 // script of one mock for the current case
 type script struct {
 	Applies bool   `json:"applies"`
-	Outcome int    `json:"outcome"` // 1..7 status; -1 panic
+	Outcome int    `json:"outcome"`            // 1..7 status; -1 panic in Execute
+	PanicAt string `json:"panic_at,omitempty"` // "new" | "Configure" | "CheckApplies": panic there instead
 	Details string `json:"details,omitempty"`
 }
 
@@ -56,7 +57,11 @@ func newID(name string) int {
 	nextID++
 	id := nextID
 	calls = append(calls, fmt.Sprintf("%s#%d:new", name, id))
+	p := scripts[name].PanicAt == "new"
 	mu.Unlock()
+	if p {
+		panic("verif mock panic in constructor")
+	}
 	return id
 }
 
@@ -86,7 +91,17 @@ func (m *mockBase) result() *lint.LintResult {
 
 func (m *mockBase) applies() bool {
 	logCall(m.name, m.id, "CheckApplies")
+	if getScript(m.name).PanicAt == "CheckApplies" {
+		panic("verif mock panic in CheckApplies")
+	}
 	return getScript(m.name).Applies
+}
+
+func (m *mockBase) configure() {
+	logCall(m.name, m.id, "Configure")
+	if getScript(m.name).PanicAt == "Configure" {
+		panic("verif mock panic in Configure")
+	}
 }
 
 type mockCert struct{ mockBase }
@@ -99,7 +114,7 @@ type mockCertCfg struct {
 	cfg mockCfg
 }
 
-func (m *mockCertCfg) Configure() interface{}                       { logCall(m.name, m.id, "Configure"); return &m.cfg }
+func (m *mockCertCfg) Configure() interface{}                       { m.configure(); return &m.cfg }
 func (m *mockCertCfg) CheckApplies(c *x509.Certificate) bool        { return m.applies() }
 func (m *mockCertCfg) Execute(c *x509.Certificate) *lint.LintResult { return m.result() }
 
@@ -113,7 +128,7 @@ type mockCRLCfg struct {
 	cfg mockCfg
 }
 
-func (m *mockCRLCfg) Configure() interface{}                          { logCall(m.name, m.id, "Configure"); return &m.cfg }
+func (m *mockCRLCfg) Configure() interface{}                          { m.configure(); return &m.cfg }
 func (m *mockCRLCfg) CheckApplies(c *x509.RevocationList) bool        { return m.applies() }
 func (m *mockCRLCfg) Execute(c *x509.RevocationList) *lint.LintResult { return m.result() }
 
@@ -127,7 +142,7 @@ type mockOCSPCfg struct {
 	cfg mockCfg
 }
 
-func (m *mockOCSPCfg) Configure() interface{}                    { logCall(m.name, m.id, "Configure"); return &m.cfg }
+func (m *mockOCSPCfg) Configure() interface{}                    { m.configure(); return &m.cfg }
 func (m *mockOCSPCfg) CheckApplies(c *ocsp.Response) bool        { return m.applies() }
 func (m *mockOCSPCfg) Execute(c *ocsp.Response) *lint.LintResult { return m.result() }
 
@@ -290,9 +305,6 @@ func judge(rec *stats.Rec, c mockCase, prop string) (string, string) {
 			continue
 		}
 		names = append(names, ms.Name)
-		mu.Lock()
-		scripts[ms.Name] = ms.Script
-		mu.Unlock()
 		m := mi.meta()
 		saved[ms.Name] = *m
 		m.EffectiveDate = mkTime(ms.EffUnix, ms.EffNano, ms.Zone)
@@ -320,7 +332,13 @@ func judge(rec *stats.Rec, c mockCase, prop string) (string, string) {
 		return "", ""
 	}
 	reg.SetConfiguration(cfg)
+	// scripts become active only now: Filter itself calls every constructor once
 	mu.Lock()
+	for _, ms := range c.Mocks {
+		if mi := byName(ms.Name); mi != nil && mi.Kind == c.Kind {
+			scripts[ms.Name] = ms.Script
+		}
+	}
 	calls = nil
 	mu.Unlock()
 	var rs *zlint.ResultSet
@@ -357,7 +375,7 @@ func judge(rec *stats.Rec, c mockCase, prop string) (string, string) {
 	// expected panic propagation (CRL / OCSP have no recovery net): only scripted for them when alone
 	scriptedPanic := false
 	for _, ms := range c.Mocks {
-		if ms.Script.Outcome < 0 && c.Kind != gen.Cert {
+		if (ms.Script.Outcome < 0 || ms.Script.PanicAt != "") && c.Kind != gen.Cert {
 			scriptedPanic = true
 		}
 	}
@@ -424,6 +442,12 @@ func judge(rec *stats.Rec, c mockCase, prop string) (string, string) {
 		switch {
 		case c.Kind == gen.Cert && !model.InScope(mi.Source, cert):
 			ws = lint.NA
+		case ms.Script.PanicAt == "new":
+			want = []string{"new"}
+			ws, exact = lint.Fatal, false
+		case ms.Script.PanicAt == "Configure" && mi.Configurable:
+			want = []string{"new", "Configure"}
+			ws, exact = lint.Fatal, false
 		case mi.Configurable && ms.BadConfig:
 			want = []string{"new", "Configure"}
 			ws, exact = lint.Fatal, false
@@ -434,6 +458,8 @@ func judge(rec *stats.Rec, c mockCase, prop string) (string, string) {
 			}
 			want = append(want, "CheckApplies")
 			switch {
+			case ms.Script.PanicAt == "CheckApplies":
+				ws, exact = lint.Fatal, false
 			case !ms.Script.Applies:
 				ws = lint.NA
 			case !inWindow:
@@ -475,7 +501,8 @@ func judge(rec *stats.Rec, c mockCase, prop string) (string, string) {
 				return "details-altered|" + string(c.Kind), fmt.Sprintf("%s: details %q, the body returned %q", ms.Name, r.Details, wd)
 			}
 			if !exact && ws == lint.Fatal {
-				if ms.Script.Outcome < 0 && ms.Script.Applies && inWindow && !(mi.Configurable && ms.BadConfig) {
+				earlyPanic := ms.Script.PanicAt == "new" || ms.Script.PanicAt == "CheckApplies" && !(mi.Configurable && ms.BadConfig) || ms.Script.PanicAt == "Configure" && mi.Configurable
+				if earlyPanic || ms.Script.PanicAt == "" && ms.Script.Outcome < 0 && ms.Script.Applies && inWindow && !(mi.Configurable && ms.BadConfig) {
 					if !strings.Contains(r.Details, model.PanicMarker) || !strings.Contains(r.Details, ms.Name) {
 						return "panic-report|cert", "recovered panic is not reported as such: " + r.Details
 					}
@@ -577,7 +604,16 @@ func TestMock(t *testing.T) {
 				ms.Script.Applies = rapid.IntRange(0, 4).Draw(rt, "applies") > 0
 				ms.Script.Outcome = rapid.IntRange(1, 7).Draw(rt, "status")
 				if rapid.IntRange(0, 11).Draw(rt, "panic") == 0 && (c.Kind == gen.Cert || !anyPanic && n == 1) {
-					ms.Script.Outcome = -1
+					switch rapid.IntRange(0, 3).Draw(rt, "panicat") {
+					case 0:
+						ms.Script.Outcome = -1
+					case 1:
+						ms.Script.PanicAt = "CheckApplies"
+					case 2:
+						ms.Script.PanicAt = "new"
+					default:
+						ms.Script.PanicAt = "Configure"
+					}
 					anyPanic = true
 				}
 				ms.Script.Details = rapid.SampledFrom([]string{"", "details", "x\xffy", "'" + mi.Name + "' panicked. Error: no", " "}).Draw(rt, "details")
